@@ -3,7 +3,7 @@
 # applied (PCFG_REPO); prints the last line of the check and, for a violation, what the replay file says.
 set -u
 HERE="$(cd "$(dirname "$0")" && pwd)"; ROOT="$(cd "$HERE/../../.." && pwd)"
-D="$1"; P="$2"; N="$(basename "$D" .diff)"; SC="/tmp/sc_T17_$N"; OUT="/tmp/sc_T17_out_$N"
+D="$1"; P="$2"; N="$(basename "$D" .diff)"; SC="/tmp/sc_R17_$N"; OUT="/tmp/sc_R17_out_$N"
 git -C /repo worktree add --detach "$SC" HEAD >/dev/null 2>&1 || { echo "$N: cannot create scratch copy"; exit 2; }
 ( cd "$SC" && grep -v '^#' "$HERE/$N.diff" | patch -p1 -s ) || { echo "$N: patch failed"; git -C /repo worktree remove --force "$SC"; exit 2; }
 cd "$ROOT"
